@@ -297,8 +297,40 @@ pub fn run(ctx: &'static Ctx) {
             }
             na.fetch_add(local, std::sync::atomic::Ordering::Relaxed);
         });
+        // runs of one repeated byte (zero in particular) inside a slice: every run length 0..=300 of bytes {00, ff, 80}, at
+        // three positions, followed and preceded by other bytes (an implementation that skips or batches runs must
+        // resume on the right byte)
+        let runs: Vec<(usize, u8)> = (0..=300usize).flat_map(|r| [0x00u8, 0xff, 0x80].into_iter().map(move |b| (r, b))).collect();
+        runs.par_iter().for_each(|(run, rb)| {
+            let mut local = 0;
+            for lead in [0usize, 1, 7, 36] {
+                for trail in [0usize, 1, 2, 9] {
+                    let mut sl: Vec<u8> = (0..lead).map(|i| 0x11 + i as u8).collect();
+                    sl.extend(std::iter::repeat(*rb).take(*run));
+                    sl.extend((0..trail).map(|i| 0xc3u8.wrapping_add(i as u8 * 5)));
+                    // a second run after the trail, so that the state after a run is exercised too
+                    sl.extend(std::iter::repeat(*rb).take(*run / 2));
+                    sl.push(0x5a);
+                    let want_sum = sl.iter().fold(0u8, |a, b| a.wrapping_add(*b));
+                    let mut c = at(0x21);
+                    c.append(&sl);
+                    let mut d = at(0x21);
+                    d.delete(&sl);
+                    local += 2;
+                    if c.raw_value() != 0x21u8.wrapping_add(want_sum) || d.raw_value() != 0x21u8.wrapping_sub(want_sum) {
+                        ctx.violation_sized(
+                            "acc:run-slice",
+                            sl.len() as u64,
+                            || format!("slice of {} bytes = {} lead bytes, a run of {} x {:02x}, {} other bytes, a run of {}, 5a: append from 0x21 -> raw {} (expected {}), delete -> raw {} (expected {})", sl.len(), lead, run, rb, trail, run / 2, c.raw_value(), 0x21u8.wrapping_add(want_sum), d.raw_value(), 0x21u8.wrapping_sub(want_sum)),
+                            || json!({"op": "append/delete", "lead": lead, "run": run, "run_byte": rb, "trail": trail}),
+                        );
+                    }
+                }
+            }
+            na.fetch_add(local, std::sync::atomic::Ordering::Relaxed);
+        });
         ctx.tr(na.load(std::sync::atomic::Ordering::Relaxed));
-        ctx.engine("E3.aligned-slices", json!({"lengths": "0..=1100, 4090..4097, 8191..8193, 65535..65537", "start_offsets": "0..=16 within one buffer", "start_states": 3, "calls": na.load(std::sync::atomic::Ordering::Relaxed)}));
+        ctx.engine("E3.aligned-slices", json!({"lengths": "0..=1100, 4090..4097, 8191..8193, 65535..65537", "start_offsets": "0..=16 within one buffer", "start_states": 3, "runs": "every run length 0..=300 of 00/ff/80 with 4 lead and 4 trail lengths", "calls": na.load(std::sync::atomic::Ordering::Relaxed)}));
     }
 
     // ---- E1: stateright closure over the real object: exactly 256 states reachable, model agrees everywhere
